@@ -83,14 +83,18 @@ Definition step_disk (d : disk) (s : step) : disk :=
 Definition memb (t : N) (l : list N) : bool := existsb (N.eqb t) l.
 
 (* the monitor: what the engine must respect at each step *)
+(* a new transaction must lie above the checkpoint recovery will trust, or it would be skipped *)
+Definition above_eff (l : list ctx) (t : N) : bool :=
+  match eff l with Some (u, _) => u <? t | None => true end.
+
 Definition step_ok (d : disk) (s : step) : bool :=
   match s with
   | STx t (Some (u, n)) =>
-      (n =? pv d) && (pd d =? pv d) &&
+      (n =? pv d) && (pd d =? pv d) && (u <? t) && above_eff (scan (wv d)) t &&
       forallb (fun a => (a <=? u) || memb a (ids (scan (wv d))) || (a =? t)) (acked d)
-  | STx _ None => true
+  | STx t None => above_eff (scan (wv d)) t
   | SRewrite t u n =>
-      (n =? pv d) && (pd d =? pv d) && forallb (fun a => (a <=? u) || (a =? t)) (acked d)
+      (n =? pv d) && (pd d =? pv d) && (u <? t) && forallb (fun a => (a <=? u) || (a =? t)) (acked d)
   | SAck => Nat.eqb (wd d) (length (wv d)) && no_torn (wv d)
   | SBad => false
   | _ => true
@@ -125,6 +129,19 @@ Definition present (img : list item * N) (t : N) : bool :=
   | None => false
   end.
 
+(* recovery replays a logged transaction only if its id is above the checkpoint in force before it:
+   `seg_ok cur l` says every transaction of l lies above the latest checkpoint logged before it
+   (cur = upto of the checkpoint in force at the start of l) *)
+Fixpoint seg_ok (cur : option N) (l : list ctx) : bool :=
+  match l with
+  | [] => true
+  | (t, c) :: r =>
+      match cur with Some u => u <? t | None => true end &&
+      seg_ok (match c with Some (u, _) => Some u | None => cur end) r
+  end.
+
+Definition replayable (img : list item * N) : bool := seg_ok None (scan (fst img)).
+
 (* the effective checkpoint of an image never points beyond the page file on disk *)
 Definition ckpt_backed (img : list item * N) : bool :=
   match eff (scan (fst img)) with
@@ -142,3 +159,61 @@ Fixpoint prefixN (a b : list N) : bool :=
   | x :: a', y :: b' => (x =? y) && prefixN a' b'
   | _, _ => false
   end.
+
+(* ---- record-level traces and their abstraction (mirror of Wal::replay_committed's grouping) ----
+   The harness also reports the recorded I/O events at record granularity; `abstract` groups
+   Begin..Commit into one STx exactly as the log scanner does, and the correspondence compares
+   it with the harness's own grouping (two independent implementations). *)
+Inductive wrec := RBegin (t : N) | RCommit (t : N) | RCkpt (upto need : N) | RData.
+
+Inductive rstep :=
+| RW (r : wrec)        (* a complete record appended to the log *)
+| RWtorn               (* an append that failed half way and was not rolled back *)
+| RWSync | RP | RPSync
+| RTmp (r : wrec)      (* a record written to the temporary log of a rewrite *)
+| RRename              (* the temporary log replaces the log *)
+| ROpOk.               (* an operation returned success *)
+
+Record gstate := { g_cur : option N; g_pend : option ckpt }.
+Definition g0 : gstate := {| g_cur := None; g_pend := None |}.
+
+(* one record through the grouper: new state and the step to emit, if any *)
+Definition feed (g : gstate) (r : wrec) : gstate * option step :=
+  match r with
+  | RBegin t => ({| g_cur := Some t; g_pend := None |}, None)
+  | RCommit t =>
+      match g_cur g with
+      | Some c => if c =? t then (g0, Some (STx t (g_pend g))) else (g, Some SBad)
+      | None => (g, Some SBad)
+      end
+  | RCkpt u n =>
+      match g_cur g with
+      | Some _ => ({| g_cur := g_cur g; g_pend := Some (u, n) |}, None)
+      | None => (g, Some SBad)
+      end
+  | RData =>
+      match g_cur g with Some _ => (g, None) | None => (g, Some SBad) end
+  end.
+
+Fixpoint abstract_from (g tg : gstate) (tmp : list step) (tr : list rstep) : list step :=
+  match tr with
+  | [] => []
+  | RW r :: rest =>
+      let '(g', o) := feed g r in
+      match o with Some s => s :: abstract_from g' tg tmp rest | None => abstract_from g' tg tmp rest end
+  | RWtorn :: rest => STorn :: abstract_from g tg tmp rest
+  | RWSync :: rest => SWSync :: abstract_from g tg tmp rest
+  | RP :: rest => SP :: abstract_from g tg tmp rest
+  | RPSync :: rest => SPSync :: abstract_from g tg tmp rest
+  | RTmp r :: rest =>
+      let '(tg', o) := feed tg r in
+      abstract_from g tg' (match o with Some s => tmp ++ [s] | None => tmp end) rest
+  | RRename :: rest =>
+      (match tmp with
+       | [STx t (Some (u, n))] => SRewrite t u n
+       | _ => SBad
+       end) :: abstract_from g0 g0 [] rest
+  | ROpOk :: rest => SAck :: abstract_from g tg tmp rest
+  end.
+
+Definition abstract (tr : list rstep) : list step := abstract_from g0 g0 [] tr.
